@@ -648,6 +648,9 @@ func runConc(cfg concCfg) (verdict, key string, stats map[string]int) {
 				}
 			}()
 			for !done.Load() {
+				if r.Chance(1, 4) {
+					time.Sleep(time.Duration(r.Intn(200)) * time.Microsecond)
+				}
 				switch r.Intn(4) {
 				case 0:
 					sn := vs.Loaded()
@@ -899,9 +902,9 @@ func runE2E(cfg e2eCfg) (verdict, key string, stats map[string]int) {
 		go func() {
 			defer wg.Done()
 			for !stop.Load() {
-				if r.Chance(1, 2) {
-					time.Sleep(time.Duration(r.Intn(300)) * time.Microsecond)
-				}
+				// pace the requests: the point is interleaving with the edits, not throughput (and an oversubscribed
+				// machine must leave the editors and the watcher some CPU)
+				time.Sleep(time.Duration(100+r.Intn(900)) * time.Microsecond)
 				if r.Chance(3, 4) {
 					res, err := ds.Search(context.Background(), &query.Substring{Pattern: "needle"}, &zoekt.SearchOptions{})
 					if err != nil {
@@ -946,7 +949,7 @@ func runE2E(cfg e2eCfg) (verdict, key string, stats map[string]int) {
 		for !stop.Load() {
 			runtime.GC()
 			nGC.Add(1)
-			time.Sleep(2 * time.Millisecond)
+			time.Sleep(5 * time.Millisecond)
 		}
 	}()
 
@@ -1033,7 +1036,7 @@ func runE2E(cfg e2eCfg) (verdict, key string, stats map[string]int) {
 	sort.Strings(wantKeys)
 	converged := false
 	var lastDiff string
-	deadline := time.Now().Add(20 * time.Second)
+	deadline := time.Now().Add(60 * time.Second)
 	for !converged && time.Now().Before(deadline) {
 		time.Sleep(15 * time.Millisecond)
 		lastDiff = ""
@@ -1083,7 +1086,7 @@ func runE2E(cfg e2eCfg) (verdict, key string, stats map[string]int) {
 		return p[1], p[0], stats
 	}
 	if !converged {
-		return "20s after the last directory change: " + lastDiff, "not-converged", stats
+		return "60s after the last directory change: " + lastDiff, "not-converged", stats
 	}
 	return "", "", stats
 }
@@ -1489,21 +1492,21 @@ func childMain(f gen.Flags) {
 	}
 	lap("vfp")
 	w = ph.next()
-	for i := 0; i < f.N(250, 3000); i++ {
+	for i := 0; i < f.N(250, 1500); i++ {
 		runScanSeq(w, genScanSeq(r), "scan")
 	}
 	lap("scan")
 	w = ph.next()
-	for i := 0; i < f.N(100, 1000); i++ {
+	for i := 0; i < f.N(60, 600); i++ {
 		w.Emit(runCow(genCow(r), "cow"))
 	}
 	lap("cow")
 	w = ph.next()
-	for i := 0; i < f.N(40, 400); i++ {
+	for i := 0; i < f.N(25, 250); i++ {
 		w.Emit(runRScan(genRScan(r), "rscan"))
 	}
 	lap("rscan")
-	nc, ne := f.N(4, 30), f.N(4, 30)
+	nc, ne := f.N(4, 20), f.N(3, 20)
 	for i := 0; i < nc; i++ {
 		w = ph.next()
 		concAndE2E(w, r, 1, 0, "")
